@@ -181,8 +181,17 @@ var kwTypes = map[string]token.Type{"function": token.FUNCTION, "let": token.LET
 // LexCheck tokenizes src with the real lexer and checks the recorded token stream against the bytes.
 // It returns the first finding (nil if none) and the number of tokens seen.
 func LexCheck(src string) (*Finding, int, []token.Token) {
+	return lexCheckOn(src, lexer.NewBuilder().Build(src), nil)
+}
+
+// lexCheckOn judges the token stream of lx (a lexer for src). extra: characters that a plugin of that lexer turns into
+// one-byte operator tokens of the given types - everything the statement says holds for a lexer with such a plugin too.
+func lexCheckOn(src string, lx *lexer.Lexer, extra map[byte]token.Type) (*Finding, int, []token.Token) {
+	return lexCheckOnPlugin(src, lx, extra, false)
+}
+
+func lexCheckOnPlugin(src string, lx *lexer.Lexer, extra map[byte]token.Type, handBuilt bool) (*Finding, int, []token.Token) {
 	li := newLineIndex(src)
-	lx := lexer.NewBuilder().Build(src)
 	maxCalls := len(src) + 2
 	cursor := 0 // every byte before cursor is accounted for
 	var toks []token.Token
@@ -305,6 +314,11 @@ func LexCheck(src string) (*Finding, int, []token.Token) {
 			}
 		case tok.Type == token.ILLEGAL:
 			last = wantStart // one source byte
+		case extra != nil && extra[c] != 0:
+			last = wantStart
+			if tok.Type != extra[c] || tok.Literal != string(c) {
+				return f("operator-class", "plugin "+string(c), fmt.Sprintf("%q (issued by a plugin) lexed as %v %q", c, tok.Type, tok.Literal))
+			}
 		default:
 			// operators and delimiters
 			two := ""
@@ -336,7 +350,8 @@ func LexCheck(src string) (*Finding, int, []token.Token) {
 			}
 			return f("end-position", key+" ("+classOf(tok.Type)+")", fmt.Sprintf("End=%v is offset %d, last byte of the lexeme is %d", tok.End, eo, last))
 		}
-		if len(toks) > 1 && tok.AfterNewline != nl {
+		if len(toks) > 1 && tok.AfterNewline != nl && !(handBuilt && extra != nil && extra[c] != 0) {
+			// (the flag of a token that a plugin filled in by hand is the plugin's business: it did not ask the lexer for it)
 			return f("after-newline", fmt.Sprintf("flag=%v", tok.AfterNewline), fmt.Sprintf("AfterNewline=%v but line break in the gap=%v", tok.AfterNewline, nl))
 		}
 		cursor = last + 1
@@ -412,6 +427,51 @@ func genBytes(r *rand.Rand, n int) string {
 	return string(b)
 }
 
+// pluginLexCase: the same monitor on a lexer whose plugin issues '^' and '@' as one-byte operator tokens - built with
+// the lexer's NewToken, with NewTokenAt, or by hand (a token value filled in by the plugin: type, text, positions) as
+// the project's own examples do. Every other token is the lexer's, and every clause holds for the whole stream.
+func pluginLexCase(t *fw.T, src string, style int) {
+	wit := func() map[string]any {
+		return map[string]any{"input": src, "input_quoted": fmt.Sprintf("%q", clip(src, 400)), "workload": "plugin tokens", "plugin_token_style": style}
+	}
+	var fd *Finding
+	var ntok int
+	if !t.Guard("lex with a token plugin", wit, func() {
+		lb := lexer.NewBuilder()
+		extra := map[byte]token.Type{'^': lb.RegisterTokenType("pow"), '@': lb.RegisterTokenType("at")}
+		lb.UseTokenInterceptor(func(l *lexer.Lexer, next func() token.Token) token.Token {
+			tt, ok := extra[l.CurrentChar]
+			if !ok {
+				return next()
+			}
+			lit := string(l.CurrentChar)
+			switch style % 3 {
+			case 0:
+				tok := l.NewToken(tt, lit)
+				l.ReadChar()
+				return tok
+			case 1:
+				line, col := l.Line, l.Column
+				l.ReadChar()
+				tok := l.NewTokenAt(tt, lit, line, col)
+				tok.End = tok.Start
+				return tok
+			}
+			pos := token.Position{Line: l.Line, Column: l.Column}
+			l.ReadChar()
+			return token.Token{Type: tt, Literal: lit, Start: pos, End: pos}
+		})
+		fd, ntok, _ = lexCheckOnPlugin(src, lb.Build(src), extra, style%3 == 2)
+	}) {
+		return
+	}
+	t.Count("tokens_checked", ntok)
+	t.Count("inputs_lexed_with_a_token_plugin", 1)
+	if fd != nil {
+		t.Violate(fd.Clause, "plugin tokens/"+fd.Key, fd.What+" in "+fmt.Sprintf("%q", clip(src, 200)), wit())
+	}
+}
+
 func lexCase(t *fw.T, src string, label string) {
 	var fd *Finding
 	var ntok int
@@ -466,6 +526,20 @@ func init() {
 				if t.WantSample() {
 					t.Sample(map[string]any{"stratum": "soup", "input": fmt.Sprintf("%q", src)})
 				}
+			}},
+			{Name: "plugin-tokens", Quick: 200000, Thorough: 1000000, Run: func(t *fw.T) {
+				r := t.Rand()
+				var sb strings.Builder
+				for i, n := 0, 1+r.IntN(12); i < n; i++ {
+					if r.IntN(3) == 0 {
+						sb.WriteString(fw.Pick(r, []string{"^", "@", " ^ ", "\n^", "^\n", "// c\n  ^ ", "@@", "^// c\n", "\n\n@ ", "^(", ")^"}))
+					} else {
+						sb.WriteString(soupFragments[r.IntN(len(soupFragments))])
+					}
+				}
+				src := sb.String()
+				pluginLexCase(t, src, t.Index/16)
+				t.Distinct(src)
 			}},
 			{Name: "truncations", Quick: 30000, Thorough: 200000, Run: func(t *fw.T) {
 				// every prefix of a short fragment sequence: inputs ending inside every kind of literal / escape / operator
